@@ -84,9 +84,16 @@ func (o Omittable[T]) MarshalGQL(w io.Writer) {
 	case Marshaler:
 		marshaler.MarshalGQL(w)
 	case ContextMarshaler:
-		_ = marshaler.MarshalGQLContext(context.Background(), w)
+		// there is no error to return: like MarshalAny and MarshalMap, fail
+		// loudly rather than leave an empty token in the response
+		if err := marshaler.MarshalGQLContext(context.Background(), w); err != nil {
+			panic(err)
+		}
 	default:
-		b, _ := json.Marshal(value)
+		b, err := json.Marshal(value)
+		if err != nil {
+			panic(err)
+		}
 		w.Write(b)
 	}
 }
@@ -121,11 +128,16 @@ func (o Omittable[T]) MarshalGQLContext(ctx context.Context, w io.Writer) {
 
 	switch marshaler := value.(type) {
 	case ContextMarshaler:
-		_ = marshaler.MarshalGQLContext(ctx, w)
+		if err := marshaler.MarshalGQLContext(ctx, w); err != nil {
+			panic(err)
+		}
 	case Marshaler:
 		marshaler.MarshalGQL(w)
 	default:
-		b, _ := json.Marshal(value)
+		b, err := json.Marshal(value)
+		if err != nil {
+			panic(err)
+		}
 		w.Write(b)
 	}
 }
